@@ -206,7 +206,18 @@ func genProgram(r *rand.Rand, small bool) []op {
 				tag = 10
 			}
 		}
-		switch k := r.Intn(20); {
+		switch k := r.Intn(22); {
+		case k == 20 && grpBase > 20000:
+			// a plain value set over a tag that holds a repeating group: the group is gone, members and all
+			gt := 20001 + 100*r.Intn((grpBase-20000)/100)
+			p = append(p, op{K: core.Pick(r, "SetString", "SetInt", "SetBytes"), M: m, S: 1, Tag: gt, Val: fmt.Sprint(r.Intn(5))})
+		case k == 21:
+			// a group read out of a parsed message (the usual way to pass one on) and set here
+			gt := grpBase + 1
+			grpBase += 100
+			b := gt
+			tm := genTmpl(r, 0, &b)
+			p = append(p, op{K: "SetGroupFromParsed", M: m, S: 1, Tag: gt, G: genGroup(r, gt, tm), Val: core.Pick(r, "", "tail")})
 		case k < 7:
 			p = append(p, op{K: core.Pick(r, "SetString", "SetField", "SetBytes", "Set"), M: m, S: s, Tag: tag, Val: randVal(r)})
 		case k == 7:
@@ -354,6 +365,30 @@ func execProgram(p []op, verbose bool) (vs []viol, nontrivial bool, lastWire str
 			removedIn[o.M][o.S] = true
 		case "SetGroup":
 			fm.SetGroup(buildGroup(o.G))
+			mod.sec[1][o.Tag] = mfield{Grp: o.G}
+			nontrivial = true
+		case "SetGroupFromParsed":
+			src := quickfix.NewMessage()
+			src.Header.SetString(8, "FIX.4.4")
+			src.Header.SetString(35, "D")
+			src.Body.SetString(11, "before")
+			src.Body.SetGroup(buildGroup(o.G))
+			if o.Val != "" {
+				src.Body.SetString(19999, "after the group")
+			}
+			parsed := quickfix.NewMessage()
+			if err := quickfix.ParseMessage(parsed, bytes.NewBufferString(src.String())); err != nil {
+				panic("harness: " + err.Error())
+			}
+			rg := quickfix.NewRepeatingGroup(quickfix.Tag(o.G.Tag), tmplOf(o.G.Tmpl))
+			if err := parsed.Body.GetGroup(rg); err != nil {
+				if len(o.G.Entries) == 0 {
+					continue // (a count of zero reads back as an error from GetGroup: C13's business)
+				}
+				vs = append(vs, viol{"C10/group-from-parsed/unreadable", fmt.Sprintf("step %d: GetGroup(%d) on the parsed source failed: %v", step, o.G.Tag, err)})
+				break
+			}
+			fm.SetGroup(rg)
 			mod.sec[1][o.Tag] = mfield{Grp: o.G}
 			nontrivial = true
 		case "FieldMapCopyInto":
